@@ -8,10 +8,12 @@ import (
 	"math/big"
 	"sort"
 	"strings"
+	"time"
 
 	ledger "github.com/formancehq/ledger/internal"
 	"github.com/formancehq/ledger/internal/storage/ledgerstore"
 	"github.com/formancehq/ledger/xverif/lib/evid"
+	"github.com/formancehq/ledger/xverif/lib/memstore"
 	"github.com/formancehq/stack/libs/go-libs/metadata"
 	"github.com/formancehq/stack/libs/go-libs/query"
 )
@@ -249,4 +251,264 @@ func patShape(pat string) string {
 		}
 	}
 	return b.String()
+}
+
+// c04ValueFilters: metadata, balance, reference and timestamp filters (every operator the builders accept, plain and under
+// $not / $and / $or) through the account and transaction listings and counts, now and with a point in time; the answer must
+// be what evaluating the filter on the fold of the log selects.
+func c04ValueFilters(rep *evid.Reporter, root *c04State) (filters, reads int) {
+	p := func(s, d string, n int64) ledger.Posting { return ledger.NewPosting(s, d, "X", big.NewInt(n)) }
+	type step func(s *c04State) []*ledger.Log
+	mkTx := func(ts ledger.Time, md metadata.Metadata, ref string, ps ...ledger.Posting) step {
+		return func(s *c04State) []*ledger.Log {
+			t := ledger.NewTransaction().WithPostings(ps...).WithID(nextTxID(s.logs["l1"])).WithDate(ts).WithMetadata(md)
+			if ref != "" {
+				t = t.WithReference(ref)
+			}
+			return []*ledger.Log{ledger.NewTransactionLogWithDate(t, map[string]metadata.Metadata{}, ledger.Time{})}
+		}
+	}
+	steps := []step{
+		mkTx(c04T1, metadata.Metadata{}, "", p("world", "orders:7", 10)),
+		mkTx(c04T1, metadata.Metadata{"kind": "sale"}, "", p("orders:7", "users:1", 5)),
+		mkTx(c04T0, metadata.Metadata{"kind": "refund"}, "r-1", p("world", "users:2", 3)),
+		mkTx(c04T2, metadata.Metadata{}, "r-2", p("users:1", "orders", 5)),
+		func(s *c04State) []*ledger.Log {
+			return []*ledger.Log{ledger.NewSetMetadataOnAccountLog(ledger.Time{}, "users:1", metadata.Metadata{"tier": "gold"})}
+		},
+		func(s *c04State) []*ledger.Log {
+			return []*ledger.Log{ledger.NewSetMetadataOnAccountLog(ledger.Time{}, "orders:7", metadata.Metadata{"tier": "silver"})}
+		},
+		func(s *c04State) []*ledger.Log {
+			return []*ledger.Log{ledger.NewSetMetadataOnAccountLog(ledger.Time{}, "orders", metadata.Metadata{"tier": "gold", "vip": "yes"})}
+		},
+		func(s *c04State) []*ledger.Log {
+			return []*ledger.Log{ledger.NewSetMetadataOnTransactionLog(ledger.Time{}, big.NewInt(0), metadata.Metadata{"kind": "sale"})}
+		},
+		func(s *c04State) []*ledger.Log {
+			return []*ledger.Log{ledger.NewDeleteMetadataLog(ledger.Time{}, ledger.DeleteMetadataLogPayload{TargetType: ledger.MetaTargetTypeAccount, TargetID: "orders", Key: "vip"})}
+		},
+	}
+	st := root
+	for i, mk := range steps {
+		n, errText := st.apply(c04Op{Name: fmt.Sprintf("valuefilters-%d", i), Ledger: "l1", Make: mk})
+		if n == nil {
+			rep.Violation("insert-error:filters", "InsertLogs failed while building the filter fixture: "+errText, map[string]interface{}{"engine": "pgmini-filters"})
+			return 0, 0
+		}
+		st = n
+	}
+	logs := st.logs["l1"]
+	fold := memstore.Fold(logs)
+	exp := expectedMoves(logs)
+	accSet := map[string]bool{}
+	for _, e := range exp {
+		accSet[e.acc] = true
+	}
+	var accounts []string
+	for a := range accSet {
+		accounts = append(accounts, a)
+	}
+	sort.Strings(accounts)
+	cmpInt := func(op string, a, b *big.Int) bool {
+		c := a.Cmp(b)
+		switch op {
+		case "$match":
+			return c == 0
+		case "$lt":
+			return c < 0
+		case "$lte":
+			return c <= 0
+		case "$gt":
+			return c > 0
+		case "$gte":
+			return c >= 0
+		}
+		return false
+	}
+	type filt struct {
+		json string
+		acc  func(a string) bool              // nil: not an account filter
+		tx   func(t *ledger.Transaction) bool // nil: not a transaction filter
+	}
+	var leaves []filt
+	ops := []string{"$match", "$lt", "$lte", "$gt", "$gte"}
+	for _, op := range ops {
+		for _, n := range []int64{0, 5, 10} {
+			op, n := op, n
+			leaves = append(leaves, filt{json: fmt.Sprintf(`{%q:{"balance[X]":%d}}`, op, n), acc: func(a string) bool {
+				touched := false
+				for _, e := range exp {
+					if e.acc == a && e.asset == "X" {
+						touched = true
+					}
+				}
+				return touched && cmpInt(op, fold.Balance(a, "X"), big.NewInt(n))
+			}})
+		}
+		for _, ts := range []ledger.Time{c04T0, c04T1, {Time: c04T1.Time.Add(time.Second)}} {
+			op, ts := op, ts
+			leaves = append(leaves, filt{json: fmt.Sprintf(`{%q:{"timestamp":%q}}`, op, ts.Time.UTC().Format(time.RFC3339Nano)), tx: func(t *ledger.Transaction) bool {
+				return cmpInt(op, big.NewInt(t.Timestamp.Time.UnixMicro()), big.NewInt(ts.Time.UnixMicro()))
+			}})
+		}
+	}
+	for _, k := range []string{"tier", "vip", "nope"} {
+		for _, v := range []string{"gold", "silver", "yes"} {
+			k, v := k, v
+			leaves = append(leaves, filt{json: fmt.Sprintf(`{"$match":{"metadata[%s]":%q}}`, k, v), acc: func(a string) bool { return fold.AccountMeta(a)[k] == v }})
+		}
+	}
+	for _, v := range []string{"sale", "refund", "nope"} {
+		v := v
+		leaves = append(leaves, filt{json: fmt.Sprintf(`{"$match":{"metadata[kind]":%q}}`, v), tx: func(t *ledger.Transaction) bool { return t.Metadata["kind"] == v }})
+	}
+	for _, v := range []string{"r-1", "r-2", "nope"} {
+		v := v
+		leaves = append(leaves, filt{json: fmt.Sprintf(`{"$match":{"reference":%q}}`, v), tx: func(t *ledger.Transaction) bool { return t.Reference == v }})
+	}
+	addrLeaf := filt{json: `{"$match":{"address":"orders:"}}`, acc: func(a string) bool { return strings.HasPrefix(a, "orders:") && strings.Count(a, ":") == 1 }}
+	srcLeaf := filt{json: `{"$match":{"source":"world"}}`, tx: func(t *ledger.Transaction) bool {
+		for _, ps := range t.Postings {
+			if ps.Source == "world" {
+				return true
+			}
+		}
+		return false
+	}}
+	all := append([]filt{}, leaves...)
+	for _, l := range leaves {
+		l := l
+		if l.acc != nil {
+			all = append(all,
+				filt{json: `{"$not":` + l.json + `}`, acc: func(a string) bool { return !l.acc(a) }},
+				filt{json: `{"$and":[` + addrLeaf.json + `,` + l.json + `]}`, acc: func(a string) bool { return addrLeaf.acc(a) && l.acc(a) }},
+				filt{json: `{"$or":[` + addrLeaf.json + `,` + l.json + `]}`, acc: func(a string) bool { return addrLeaf.acc(a) || l.acc(a) }})
+		} else {
+			all = append(all,
+				filt{json: `{"$not":` + l.json + `}`, tx: func(t *ledger.Transaction) bool { return !l.tx(t) }},
+				filt{json: `{"$and":[` + srcLeaf.json + `,` + l.json + `]}`, tx: func(t *ledger.Transaction) bool { return srcLeaf.tx(t) && l.tx(t) }},
+				filt{json: `{"$or":[` + srcLeaf.json + `,` + l.json + `]}`, tx: func(t *ledger.Transaction) bool { return srcLeaf.tx(t) || l.tx(t) }})
+		}
+	}
+	ctx := context.Background()
+	s := st.store("l1")
+	defer s.GetDB().Close()
+	far := ledger.Time{Time: c04T2.Time.AddDate(1, 0, 0)}
+	for _, f := range all {
+		filters++
+		replay := map[string]interface{}{"engine": "pgmini-filters", "filter": f.json}
+		viol := func(kind, why string) {
+			rep.Violation("filter-"+kind+":"+filterShape(f.json), why+" [filter "+f.json+"]", replay)
+		}
+		func() {
+			defer func() {
+				if r := recover(); r != nil {
+					viol("panic", fmt.Sprint("a read method panics: ", r))
+				}
+			}()
+			for _, pit := range []*ledger.Time{nil, &far} {
+				qb, err := query.ParseJSON(f.json)
+				if err != nil {
+					return
+				}
+				if f.acc != nil {
+					var want []string
+					for _, a := range accounts {
+						if f.acc(a) {
+							want = append(want, a)
+						}
+					}
+					opts := ledgerstore.NewPaginatedQueryOptions(ledgerstore.PITFilterWithVolumes{PITFilter: ledgerstore.PITFilter{PIT: pit}}).WithQueryBuilder(qb).WithPageSize(100)
+					cur, err := s.GetAccountsWithVolumes(ctx, ledgerstore.NewGetAccountsQuery(opts))
+					reads++
+					if err != nil {
+						if strings.Contains(err.Error(), "unsupported") {
+							rep.Undecide("interpreter: " + err.Error())
+						}
+						return // refused as an invalid filter
+					}
+					var got []string
+					for _, a := range cur.Data {
+						got = append(got, a.Address)
+					}
+					if fmt.Sprint(got) != fmt.Sprint(want) {
+						viol("accounts", fmt.Sprintf("the account listing (pit %s) answers %v, evaluating the filter on the replayed log selects %v", pitStr(pit), got, want))
+						return
+					}
+					n, err := s.CountAccounts(ctx, ledgerstore.NewGetAccountsQuery(opts))
+					reads++
+					if err != nil || n != len(want) {
+						viol("count-accounts", fmt.Sprintf("CountAccounts (pit %s) = %d (%v), %d accounts satisfy the filter", pitStr(pit), n, err, len(want)))
+						return
+					}
+				} else {
+					var want []string
+					for _, id := range fold.TxIDs() {
+						if f.tx(fold.Tx(id)) {
+							want = append(want, id)
+						}
+					}
+					sort.Strings(want)
+					opts := ledgerstore.NewPaginatedQueryOptions(ledgerstore.PITFilterWithVolumes{PITFilter: ledgerstore.PITFilter{PIT: pit}}).WithQueryBuilder(qb).WithPageSize(100)
+					cur, err := s.GetTransactions(ctx, ledgerstore.NewGetTransactionsQuery(opts))
+					reads++
+					if err != nil {
+						if strings.Contains(err.Error(), "unsupported") {
+							rep.Undecide("interpreter: " + err.Error())
+						}
+						return
+					}
+					var got []string
+					for _, t := range cur.Data {
+						got = append(got, t.ID.String())
+					}
+					sort.Strings(got)
+					if fmt.Sprint(got) != fmt.Sprint(want) {
+						viol("transactions", fmt.Sprintf("the transaction listing (pit %s) answers ids %v, evaluating the filter on the replayed log selects %v", pitStr(pit), got, want))
+						return
+					}
+					n, err := s.CountTransactions(ctx, ledgerstore.NewGetTransactionsQuery(opts))
+					reads++
+					if err != nil || n != len(want) {
+						viol("count-transactions", fmt.Sprintf("CountTransactions (pit %s) = %d (%v), %d transactions satisfy the filter", pitStr(pit), n, err, len(want)))
+						return
+					}
+				}
+			}
+		}()
+	}
+	return filters, reads
+}
+
+// filterShape: the filter with its values removed (keys and operators only)
+func filterShape(js string) string {
+	var b strings.Builder
+	inStr := false
+	depth := 0
+	for i := 0; i < len(js); i++ {
+		c := js[i]
+		switch {
+		case c == '"':
+			inStr = !inStr
+		case inStr:
+			b.WriteByte(c)
+		case c == '{' || c == '[':
+			depth++
+			b.WriteByte('(')
+		case c == '}' || c == ']':
+			depth--
+			b.WriteByte(')')
+		case c == ':':
+			b.WriteByte(' ')
+		}
+	}
+	s := b.String()
+	for _, v := range []string{"gold", "silver", "yes", "sale", "refund", "nope", "r-1", "r-2"} {
+		s = strings.ReplaceAll(s, " "+v, " _")
+	}
+	if len(s) > 80 {
+		s = s[:80]
+	}
+	return s
 }
